@@ -102,6 +102,12 @@ def vrace_templates():
     return [("vrace", a, b) for a in _VRACE_T0 for b in _VRACE_BAD]
 
 
+def manyclasses_templates():
+    """Every vector class of every backend in one process, touched from several threads: bounded caches, lazily built
+    tables and per-class registries see evictions, clears and first-time inserts while another thread is inside them."""
+    return [("manyclasses", v) for v in range(24)]
+
+
 def mutsym_templates():
     """Symbolic private targets: out= forms and in-place operators with pooled symbolic operands."""
     return [("mutsym", v) for v in range(24)]
@@ -139,6 +145,9 @@ def gen_case(seed, tier, focus):
     elif idx >= 40000:
         tpl = mutsym_templates()
         t = tpl[(idx - 40000) % len(tpl)]
+    elif idx >= 30000:
+        tpl = manyclasses_templates()
+        t = tpl[(idx - 30000) % len(tpl)]
     else:
         tpl = templates()
         t = tpl[idx % len(tpl)]
@@ -146,7 +155,7 @@ def gen_case(seed, tier, focus):
     g = G.WorldGen(rng.randrange(1 << 30), tier, focus or "C20")
     g.rng = rng
     fn = {"raise": _raise_case, "rendezvous": _rendezvous_case, "register": _register_case, "mutators": _mutator_case,
-          "reach": _reach_case, "pair": _pair_case, "numba": _numba_case, "vrace": _vrace_case, "mutsym": _mutsym_case}[t[0]]
+          "reach": _reach_case, "pair": _pair_case, "numba": _numba_case, "vrace": _vrace_case, "mutsym": _mutsym_case, "manyclasses": _manyclasses_case}[t[0]]
     w = fn(g, rng, t)
     w["seed"] = seed
     w["directed"] = list(map(str, t))
@@ -545,3 +554,42 @@ def _mutsym_case(g, rng, t):
     progs = g.build_progs(k)
     sched = {"kind": rng.choice(("walk", "sites")), "seed": rng.randrange(1 << 30), "p": 0.3, "which": ["with", "store", "func"], "domain": "line", "observe": 2}
     return _finish(g, k, progs, [], sched, niso=1)
+
+
+def _manyclasses_case(g, rng, t):
+    _, variant = t
+    nth = 2 + variant % 2
+    k = _base_knobs(g, nth)
+    k["awk_mode"] = "registered_before" if variant % 4 == 0 else "unregistered"
+    slots = []
+    for be in ("obj", "np", "ak"):
+        for d in (2, 3, 4):
+            sysl = [s_ for s_ in C.SYSTEMS if C.dim_of(s_) == d]
+            for mom in (False, True):
+                slots.append(_mk_like(g, k, be, sysl[rng.randrange(len(sysl))], mom))
+    recs = []
+    for j in list(slots):
+        if g.desc[j].be == "ak" and g.desc[j].lay == "flat":
+            recs.append(g.add({"f": "vecsim.getitem", "a": [P(j), 0]}, be="akrec", dim=g.desc[j].dim, mom=g.desc[j].mom, sys=g.desc[j].sys))
+    slots += recs
+    if variant % 3 == 0:
+        for d in (2, 3, 4):
+            slots.append(g.mk_sym(k, dim=d))
+    progs = []
+    for q in range(nth):
+        prog = []
+        for _round in range(2):      # twice round all classes: bounded tables evict and refill
+            order = list(slots)
+            rng.shuffle(order)
+            for j in order:
+                w = rng.random()
+                if w < 0.25:
+                    prog.append({"f": "." + rng.choice(("rho", "phi", "x")), "a": [P(j)], "attr": 1, "cat": "manyclasses"})
+                elif w < 0.8:
+                    prog.append({"f": "." + rng.choice(("add", "subtract", "dot", "deltaphi")), "a": [P(j), P(j)], "cat": "manyclasses"})
+                else:
+                    prog.append({"f": "." + rng.choice(("to_xy", "to_rhophi", "unit")), "a": [P(j)], "cat": "manyclasses"})
+        progs.append(prog)
+    sched = {"kind": "parkop" if variant % 2 == 0 else "sites", "seed": rng.randrange(1 << 30), "p": rng.choice((1.0, 0.5, 0.25)),
+             "which": ["glob", "store"], "domain": "line", "observe": 0, "observe_mut": 0}
+    return _finish(g, k, progs, [], sched, niso=0)
